@@ -125,6 +125,7 @@ empty_tags = (*void_tags, 'iframe')
 # TODO: fork the tokenization part of lxml.html.diff and use this list!
 undiffable_content_tags = set([
     'datalist',  # Still HTML content, but we can’t really diff inside
+    'iframe',  # Raw text to an HTML parser: a marker inside it is just text
     'math',
     'option',
     'rp',
